@@ -245,7 +245,8 @@ def elem_value(h, p, second=False):
     type has such values: overwriting must not depend on the new value being truthy)"""
     if second:
         if p in ('site', 'controller_url', 'boot_script', 'details'):
-            return {'site': 'SITE3', 'controller_url': 'http://d', 'boot_script': 'true', 'details': 'other'}[p]
+            # the empty string is a value too (set, but falsy): it must be stored, read back and be unsettable like any other
+            return {'site': '', 'controller_url': '', 'boot_script': '', 'details': ''}[p]
         if p == 'stitch_node':
             return False
         if p == 'capacities':
